@@ -819,22 +819,27 @@ func TestVerifC20(t *testing.T) {
 		jitter          int64
 	}
 	run := func(p params) {
+		// (half of the runs: a host name as registered by a server whose name has capitals in it - an address is an opaque string)
+		rs1 := "rs1"
+		if (p.nreg+p.m+p.queue)%2 == 1 {
+			rs1 = "RS1.dc.Example"
+		}
 		verifsim.Bubble(t, func(t *testing.T) {
 			tr := &verifsim.Trace{}
 			cl := verifsim.NewCluster(tr)
 			cl.AddServer("ms")
-			cl.AddServer("rs1")
+			cl.AddServer(rs1)
 			var splits [][]byte
 			for i := 1; i < p.nreg; i++ {
 				splits = append(splits, []byte{byte('a' + i)})
 			}
-			regs := cl.CreateTable("t", splits, []string{"rs1"})
+			regs := cl.CreateTable("t", splits, []string{rs1})
 			var mu sync.Mutex
 			var evs []map[string]any
 			emit := func(e map[string]any) { mu.Lock(); evs = append(evs, e); mu.Unlock() }
 			hostOf := map[string]string{"hbase:meta,,1": "ms"}
 			for _, r := range regs {
-				hostOf[string(r.Name)] = "rs1"
+				hostOf[string(r.Name)] = rs1
 			}
 			var jr *rand.Rand
 			if p.jitter != 0 {
@@ -855,13 +860,10 @@ func TestVerifC20(t *testing.T) {
 			})
 			cl.DialHook = func(addr string) { emit(map[string]any{"ev": "dial", "addr": addr}) }
 			if p.killDuringProbe {
-				n := 0
+				var n atomic.Int32 // (a client that holds several connections to the server has the rule run by several goroutines)
 				cl.Rules = append(cl.Rules, func(c *verifsim.Cluster, rs *verifsim.RS, sc *verifsim.ServerConn, req *verifsim.Request, name []byte) *verifsim.Directive {
-					if rs.Addr == "rs1" && verifsim.IsProbe(req) {
-						n++
-						if n == 2 {
-							return &verifsim.Directive{Drop: true}
-						}
+					if rs.Addr == rs1 && verifsim.IsProbe(req) && n.Add(1) == 2 {
+						return &verifsim.Directive{Drop: true}
 					}
 					return nil
 				})
@@ -871,7 +873,7 @@ func TestVerifC20(t *testing.T) {
 				time.Sleep(200 * time.Millisecond)
 				synctest.Wait()
 				open := []map[string]any{}
-				for _, a := range []string{"ms", "rs1"} {
+				for _, a := range []string{"ms", rs1} {
 					open = append(open, map[string]any{"addr": a, "n": cl.OpenConns(a)})
 				}
 				emit(map[string]any{"ev": "quiesce", "open": open})
@@ -919,7 +921,7 @@ func TestVerifC20(t *testing.T) {
 				quiesce()
 			}
 			for r := 0; r < p.resets; r++ {
-				cl.ResetConns("rs1")
+				cl.ResetConns(rs1)
 				time.Sleep(10 * time.Millisecond)
 				wave()
 				quiesce()
@@ -931,7 +933,7 @@ func TestVerifC20(t *testing.T) {
 				class := []string{verifsim.ExcRegionOpening, verifsim.ExcTooBusy, verifsim.ExcQueueTooBig}[(p.m+p.resets)%3]
 				cl.Lock()
 				cl.Rules = append(cl.Rules, func(c *verifsim.Cluster, rs *verifsim.RS, sc *verifsim.ServerConn, req *verifsim.Request, name []byte) *verifsim.Directive {
-					if rs.Addr == "rs1" && verifsim.IsProbe(req) && once.CompareAndSwap(false, true) {
+					if rs.Addr == rs1 && verifsim.IsProbe(req) && once.CompareAndSwap(false, true) {
 						return &verifsim.Directive{Exc: class}
 					}
 					return nil
@@ -951,7 +953,7 @@ func TestVerifC20(t *testing.T) {
 			quiesce()
 			time.Sleep(2 * time.Minute)
 			synctest.Wait()
-			for _, a := range []string{"ms", "rs1"} { // cut whatever connection was leaked so that the scenario can end
+			for _, a := range []string{"ms", rs1} { // cut whatever connection was leaked so that the scenario can end
 				cl.ResetConns(a)
 			}
 			time.Sleep(time.Minute)
@@ -963,7 +965,7 @@ func TestVerifC20(t *testing.T) {
 			rep.Scenarios++
 			rep.Distinct++
 			if p.resets == 0 && !p.killDuringProbe {
-				if n := cl.DialCount("rs1"); n != 1 {
+				if n := cl.DialCount(rs1); n != 1 {
 					rep.bad("dials-exceed", "%s: regionserver dialled %d times for %d regions and %d concurrent first users without any failure", p.name, n, p.nreg, p.m)
 				}
 			}
